@@ -307,6 +307,20 @@ def minBy (f : Costs → Int × Int × Int) : List (List Ix × Costs) → Option
 def best (tg : Targets) (cache : Cache) : Option (List Ix × Costs) :=
   minBy (scorer tg) (cache.filter fun kv => valid tg kv.2)
 
+/-- python's `sorted(valid, key=best_scorer)` (stable): insertion of `x` in front of the first
+    element that is not smaller -/
+def insertByScore (f : Costs → Int × Int × Int) (x : List Ix × Costs) :
+    List (List Ix × Costs) → List (List Ix × Costs)
+  | [] => [x]
+  | y :: t => if lexLt (f y.2) (f x.2) then y :: insertByScore f x t else x :: y :: t
+
+def sortByScore (f : Costs → Int × Int × Int) (l : List (List Ix × Costs)) : List (List Ix × Costs) :=
+  l.foldr (insertByScore f) []
+
+/-- `SliceFinder.best(k=…)` (slicer.py:329-331): the `k` best valid slicings, best first -/
+def bestK (tg : Targets) (cache : Cache) (k : Nat) : List (List Ix × Costs) :=
+  (sortByScore (scorer tg) (cache.filter fun kv => valid tg kv.2)).take k
+
 /-- `forbidden` as set up in `__init__` (slicer.py:256-267); `allowOuter`: 0 = False, 1 = True,
     2 = 'only' -/
 def forbiddenOf (output : List Ix) (sizeDict : List (Ix × Nat)) (allowOuter : Nat) : List Ix :=
